@@ -237,6 +237,55 @@ func checkC03(p *Program, r *Result) {
 			queueCalls = append(queueCalls, queueCall{m, ci, name})
 		}
 	}
+	// a reversal written as a swap loop: q[i], q[j] = q[j], q[i] on (a window of) the queue
+	for _, m := range methodsOf(p, pkgMcap, "indexedMessageIterator") {
+		if m.Blocks == nil {
+			continue
+		}
+		for _, b := range m.Blocks {
+			var stores []*ssa.Store
+			for _, in := range b.Instrs {
+				if st, ok := in.(*ssa.Store); ok {
+					if _, ok := st.Addr.(*ssa.IndexAddr); ok {
+						stores = append(stores, st)
+					}
+				}
+			}
+			for i := 0; i < len(stores); i++ {
+				for j := i + 1; j < len(stores); j++ {
+					a, c := stores[i].Addr.(*ssa.IndexAddr), stores[j].Addr.(*ssa.IndexAddr)
+					la, ok1 := stores[i].Val.(*ssa.UnOp)
+					lc, ok2 := stores[j].Val.(*ssa.UnOp)
+					sameSlice := func(x, y ssa.Value) bool {
+						if x == y {
+							return true
+						}
+						ux, okx := x.(*ssa.UnOp)
+						uy, oky := y.(*ssa.UnOp)
+						if !okx || !oky {
+							return false
+						}
+						t1, f1, b1, k1 := fieldRef(ux.X)
+						t2, f2, b2, k2 := fieldRef(uy.X)
+						return k1 && k2 && t1 == t2 && f1 == f2 && b1 == b2
+					}
+					if !ok1 || !ok2 || !sameSlice(a.X, c.X) || a.Index == c.Index {
+						continue
+					}
+					ia, ok1 := la.X.(*ssa.IndexAddr)
+					ic, ok2 := lc.X.(*ssa.IndexAddr)
+					if !ok1 || !ok2 || !sameSlice(ia.X, a.X) || !sameSlice(ic.X, a.X) || ia.Index != c.Index || ic.Index != a.Index {
+						continue
+					}
+					for _, o := range oc.originsUp(a.X) {
+						if o == p.roles().queueOrigin() {
+							reverseCalls = append(reverseCalls, stores[i])
+						}
+					}
+				}
+			}
+		}
+	}
 	for _, qc := range queueCalls {
 		ci, name := qc.ci, qc.name
 		args := ci.Common().Args
